@@ -218,13 +218,114 @@ fn hot_spans(h: &History) -> Vec<(usize, usize)> {
     h.written.layout.fields.iter().map(|f| (f.0, f.1)).collect()
 }
 
+/// An *encrypted* file (empty user password, so the loader decrypts it on its own) that keeps objects in
+/// object streams, several of which store the same object numbers without any of them being designated
+/// by the cross-reference table. lopdf cannot save object streams, so the containers are written under
+/// another type name which is patched in the saved bytes. Whatever the loader does after decrypting —
+/// it unpacks the containers then — must not depend on the schedule.
+fn c08_encrypted_objstm(ctx: &Ctx, out: &mut RunOut) -> Result<(), Violation> {
+    use sim::lopdf::{dictionary, Document, EncryptionState, EncryptionVersion, Object, Permissions, Stream};
+    let mut d = Document::with_version("1.5");
+    let pages = d.new_object_id();
+    let page = d.add_object(dictionary! { "Type" => "Page", "Parent" => pages });
+    d.objects.insert(pages, Object::Dictionary(dictionary! { "Type" => "Pages", "Kids" => vec![page.into()], "Count" => 1 }));
+    let cat = d.add_object(dictionary! { "Type" => "Catalog", "Pages" => pages });
+    d.trailer.set("Root", cat);
+    let id0: Vec<u8> = (0..16).map(|_| ctx.draw(W, 256, "id") as u8).collect();
+    d.trailer.set("ID", Object::Array(vec![Object::string_literal(id0.clone()), Object::string_literal(id0)]));
+    // some ordinary objects in front (work for the other workers)
+    for i in 0..ctx.draw(W, 40, "plain-objects") {
+        d.add_object(Object::Array(vec![Object::Integer(i as i64), Object::string_literal(format!("plain object {i}"))]));
+    }
+    let n_containers = 2 + ctx.draw(W, 12, "containers") as usize;
+    let first_num = 1000 + ctx.draw(W, 50, "member-base") as u32;
+    let n_members = 1 + ctx.draw(W, 6, "members") as u32;
+    for c in 0..n_containers {
+        let (mut index, mut body) = (String::new(), String::new());
+        for k in 0..n_members {
+            // not every container holds every number
+            if ctx.chance(W, 1, 5, "member-absent") {
+                continue;
+            }
+            index.push_str(&format!("{} {} ", first_num + k, body.len()));
+            body.push_str(&format!("<</From {c} /Member {k}>> "));
+        }
+        let n = index.split_whitespace().count() / 2;
+        let content = format!("{index}{body}").into_bytes();
+        let st = Stream::new(dictionary! { "Type" => "ObjStX", "N" => n as i64, "First" => index.len() as i64 }, content);
+        d.add_object(st);
+    }
+    let which = ctx.draw(W, 3, "enc-version");
+    let state = {
+        let for_state = d.clone();
+        let v = match which {
+            0 => EncryptionVersion::V1 { document: &for_state, owner_password: "owner", user_password: "", permissions: Permissions::all() },
+            1 => EncryptionVersion::V2 { document: &for_state, owner_password: "owner", user_password: "", key_length: 128, permissions: Permissions::all() },
+            _ => EncryptionVersion::V2 { document: &for_state, owner_password: "owner", user_password: "", key_length: 40, permissions: Permissions::all() },
+        };
+        guarded("EncryptionState::try_from", || EncryptionState::try_from(v))?
+    };
+    let Ok(state) = state else {
+        out.sample = "encrypted object-stream file: state rejected".into();
+        return Ok(());
+    };
+    if guarded("Document::encrypt", || d.encrypt(&state))?.is_err() {
+        return Ok(());
+    }
+    let mut img = Vec::new();
+    guarded("save_to", || d.save_to(&mut img))?.map_err(|e| Violation::new("healthy-save-failed", format!("encrypted base: {e}")))?;
+    let mut patched = 0;
+    let mut i = 0;
+    while i + 6 <= img.len() {
+        if &img[i..i + 6] == b"ObjStX" {
+            img[i + 5] = b'm';
+            patched += 1;
+        }
+        i += 1;
+    }
+    if patched == 0 {
+        return Ok(());
+    }
+    ctx.count("encrypted-files-with-object-streams");
+    ctx.event("c08-encrypted-objstm", img.len() as u64, simcore::fnv(&img));
+    let reference = guarded("load_mem(seq)", || seq::load_outcome(&img))?;
+    for i in 0..if thorough() { 16 } else { 8 } {
+        ctx.set_sched(match i {
+            0 => SchedPolicy::InOrder,
+            1 => SchedPolicy::Reverse,
+            2 => SchedPolicy::Rotate(1 + ctx.draw(S, 7, "rotate") as usize),
+            _ => SchedPolicy::Random,
+        });
+        ctx.set_num_threads([1usize, 2, 3, 4, 8, 16][ctx.draw(S, 6, "pool-size") as usize]);
+        if i >= 4 && ctx.chance(S, 1, 2, "mode-t") {
+            ctx.set_mode_t(Some([2usize, 3, 4, 8][ctx.draw(S, 4, "mode-t-workers") as usize]));
+        }
+        let o = guarded("load_mem", || sim::load_outcome(&img))?;
+        ctx.set_mode_t(None);
+        if o != reference {
+            return Err(Violation::new(
+                "differs-from-sequential",
+                format!("encrypted file with {n_containers} object streams storing the same {n_members} object numbers: schedule #{i} gives {} but the sequential build gives {}", show_outcome(&o), show_outcome(&reference)),
+            ));
+        }
+    }
+    ctx.set_sched(SchedPolicy::Random);
+    out.case_hash = simcore::fnv(&img);
+    out.nontrivial = true;
+    out.sample = format!("encrypted file ({} bytes) with {n_containers} object streams storing the same object numbers", img.len());
+    Ok(())
+}
+
 /// C08: the same bytes load to the same document (or the same error) under
 /// every completion order of the parallel phase, for every simulated pool
 /// size, and equal to the sequential build — for valid files and for their
 /// fault-corrupted variants alike.
 pub fn c08_schedules(ctx: &Ctx, out: &mut RunOut) -> Result<(), Violation> {
-    for k in ["rootless-histories-with-several-catalogs", "files-with-shared-container-length", "mode-t-loads", "mode-t-loads-with-allocation-preemption", "allocation-point-preemptions", "mode-t-loads-stalled-and-discarded", "files-with-all-orders-enumerated", "orders-enumerated-exhaustively", "baton-choice-at-contended-lock", "big-object-stream-docs", "image-fault-corrupted"] {
+    for k in ["encrypted-files-with-object-streams", "rootless-histories-with-several-catalogs", "files-with-shared-container-length", "mode-t-loads", "mode-t-loads-with-allocation-preemption", "allocation-point-preemptions", "mode-t-loads-stalled-and-discarded", "files-with-all-orders-enumerated", "orders-enumerated-exhaustively", "baton-choice-at-contended-lock", "big-object-stream-docs", "image-fault-corrupted"] {
         ctx.count_n(k, 0); // registered so that a probe that never fires shows up as zero in the evidence
+    }
+    if ctx.chance(W, 1, 16, "encrypted-objstm-case") {
+        return c08_encrypted_objstm(ctx, out);
     }
     let mut h = gen_history(ctx, 3, true, false, false);
     let last = h.revisions.len() - 1;
